@@ -43,7 +43,10 @@ class VirtualWall:
     advances the clock by ``read_advance`` (so two reads inside one call would
     differ - a torn reference time matches no single instant)."""
 
-    def __init__(self, start, read_advance_us=0):
+    def __init__(self, start, read_advance_us=0, utc_offset_s=0):
+        # the simulated machine's local zone is UTC + utc_offset_s: now() is local time (what
+        # the library must use), now(tz) / utcnow() answer for the same instant in UTC
+        self.utc_offset = timedelta(seconds=utc_offset_s)
         self.t = start
         self.read_advance = timedelta(microseconds=read_advance_us)
         self.reads = []  # (global sequence number, instant)
@@ -68,12 +71,18 @@ class VirtualWall:
             @classmethod
             def now(cls, tz=None):
                 v = wall.read()
-                return datetime(v.year, v.month, v.day, v.hour, v.minute, v.second,
-                                v.microsecond)
+                local = datetime(v.year, v.month, v.day, v.hour, v.minute, v.second,
+                                 v.microsecond)
+                if tz is None:
+                    return local
+                from datetime import timezone
+                return (local - wall.utc_offset).replace(tzinfo=timezone.utc).astimezone(tz)
 
             @classmethod
             def utcnow(cls):
-                return cls.now()
+                v = wall.read()
+                return datetime(v.year, v.month, v.day, v.hour, v.minute, v.second,
+                                v.microsecond) - wall.utc_offset
 
             @classmethod
             def today(cls):
@@ -83,10 +92,12 @@ class VirtualWall:
 
 
 def parse_ts(s):
-    return datetime.strptime(s, "%Y-%m-%dT%H:%M:%S.%f" if "." in s else "%Y-%m-%dT%H:%M:%S")
+    return datetime.fromisoformat(s)   # naive, or aware when the string carries an offset
 
 
 def fmt_ts(t):
+    if t.tzinfo is not None:
+        return t.isoformat()
     if t.microsecond:
         return t.strftime("%Y-%m-%dT%H:%M:%S.%f")
     return t.strftime("%Y-%m-%dT%H:%M:%S")
